@@ -326,6 +326,8 @@ def ecdh_points(server: bool, ai: int, pi: int) -> bool:
     is signed / no keys are taken into use; a genuine value completes the step."""
     from asyncssh import kex as KX
     from vf.rt import notrace
+    ai = conc(ai, 0, 6)
+    pi = conc(pi, 0, 7)
     avail = [a for a in ECDH_ALGS if a in KX.get_kex_algs()]
     alg = avail[ai % len(avail)]
     with notrace():
